@@ -3,7 +3,7 @@
 import Frugal.Tags
 import Frugal.Proofs.TagsSpec
 import Frugal.Proofs.BuildCacheLemmas
-import Frugal.Props.Instances
+import Frugal.Props.Inst.F_skeleton_resolver
 namespace Frugal.C13
 open Frugal
 
